@@ -50,7 +50,7 @@ func runC06(ctx *vh.Ctx) error {
 		c.CfgFwdStale = &other
 		return gcase5.Evaluate(ctx, "C06", &c, false)
 	}
-	n := ctx.N(1500, 40000)
+	n := ctx.N(6000, 60000)
 	for i := 0; i < n && ctx.TimeLeft(); i++ {
 		c := c06Gen(ctx, i)
 		c.CfgFwdStale = &other
